@@ -11,6 +11,7 @@ mod gad;
 mod c09;
 mod c10;
 mod c11;
+mod c12;
 mod c13;
 mod c14;
 mod c15;
@@ -82,6 +83,7 @@ fn main() {
         "c09" => c09::main(rest),
         "c10" => c10::main(rest),
         "c11" => c11::main(rest),
+        "c12" => c12::main(rest),
         "c13" => c13::main(rest),
         "c14" => c14::main(rest),
         "c15" => c15::main(rest),
